@@ -195,7 +195,12 @@ def run(chk):
                steps=[dict(op="scalar_add", args=[0], kw=dict(k=1)),
                       dict(op="store_full", args=[1], kw=dict(tchunks=[2, 2], tshards=[4, 4])),
                       dict(op="negative", args=[0]), dict(op="sum", args=[3], kw=dict(axis=0))], outs=[2, 4], family="store_sharded_then")
-    forced = [(sh1, programs.Interp(np, False).run(sh1), True), (sh2, programs.Interp(np, False).run(sh2), False)]
+    # a multi-output operation (unstack: three outputs per task) at every crash point: a crash between the writes of its outputs
+    # leaves the first output complete and the others not
+    mo = dict(inputs=[dict(shape=[3, 4], chunks=[3, 2], dtype="float64", seed=2, pattern="lin", src="asarray")],
+              steps=[dict(op="unstack", args=[0], kw=dict(axis=0)), dict(op="lincomb", args=[1, 3])], outs=[4], family="multi-output-all")
+    forced = [(sh1, programs.Interp(np, False).run(sh1), True), (sh2, programs.Interp(np, False).run(sh2), False),
+              (mo, programs.Interp(np, False).run(mo), False)]
     nprog += len(forced)
     while done_prog < nprog and tries < nprog * 4:
         tries += 1
@@ -212,7 +217,7 @@ def run(chk):
         pts = [("task", k) for k in range(1, ntasks)] + [("set", k, w) for k in range(1, nsets + 1) for w in ("before", "after")]
         if prog.get("family") == "store_sharded_then":
             pts = [p for p in pts if p[0] == "task"]
-        elif len(pts) > per and prog.get("family") != "store_sharded":      # few shards: every crash point of a sharded store
+        elif len(pts) > per and prog.get("family") not in ("store_sharded", "multi-output-all"):      # small plans: every crash point
             pts = rng.sample(pts, per)
         done_prog += 1
         for cp in pts:
